@@ -195,7 +195,8 @@ type streamScenario struct {
 	ShutAt    int     `json:"shut_at"` // local shutdown by the harness after this many deliveries; -1 = never
 	Family    string  `json:"family,omitempty"`
 	Devs      bool    `json:"deviation_bound,omitempty"` // Bound counts departures from the default policy instead of preemptions
-	OutSizes  []int   `json:"out_sizes,omitempty"` // outbound size sweep: total sizes of packet-outs submitted by one producer
+	OutSizes  []int   `json:"out_sizes,omitempty"`
+	OutKinds  []int   `json:"out_kinds,omitempty"` // outbound kind sweep: indices into the list of all encodable message kinds // outbound size sweep: total sizes of packet-outs submitted by one producer
 }
 
 type delivered struct {
@@ -317,6 +318,11 @@ func newStreamExplorer(sc streamScenario, alphabet []streamFrame, outAlphabet []
 			verifrt.GoNamed(fmt.Sprintf("producer%d", pi), func() {
 				for k, kind := range kinds {
 					m, err := bind.BuildMsg(outAlphabet[kind], bind.Hist{})
+					if err != nil || m == nil {
+						// kinds without constructors: the value the parser makes of the reference encoding
+						f, _ := wire.Encode(outAlphabet[kind])
+						m, err = of.Parse(f)
+					}
 					if err != nil || m == nil {
 						panic("harness: outbound message cannot be built")
 					}
